@@ -231,6 +231,38 @@ def kinds_dump_bad(ii, ti, a):
             elif sig[0] != base[0] or (sig[0] == "ok" and sig[1] != base[1]): return False
     return True
 
+# ---- a logical model whose FIRST processed field is optional with a non-None default: explicit None is a value, not an omission
+class OFPy(pydantic.BaseModel):
+    label: Optional[str] = "unnamed"
+    size: int
+class OFTd(TypedDict):
+    label: NotRequired[Optional[str]]           # TypedDict fields are processed in sorted order: label < size
+    size: int
+class OFPl:
+    def __init__(self, label: Optional[str] = "unnamed", *, size: int): self.label, self.size = label, size
+@dataclasses.dataclass(kw_only=True)
+class OFDc:
+    label: Optional[str] = "unnamed"
+    size: int
+@attr.s(auto_attribs=True, kw_only=True)
+class OFAt:
+    label: Optional[str] = "unnamed"
+    size: int
+OFK = {"pydantic": OFPy, "typeddict": OFTd, "plain": OFPl, "dataclass": OFDc, "attrs": OFAt}
+OFLD = {(k, dt): Retort(debug_trail=dt).get_loader(K) for k, K in OFK.items() for dt in DT_MODES}
+def optional_first(li, size):
+    label = ("MISSING", None, "", "x")[pick(li, 4)]
+    size = EXT_POOL_A[pick(size, 3)]
+    for (k, dt), ld in OFLD.items():
+        data = {"size": size}
+        if label != "MISSING": data["label"] = label
+        o = outcome(ld, data)
+        if o[0] != "ok": return False
+        got = o[2].get("label", "ABSENT") if k == "typeddict" else o[2].label
+        exp = ("ABSENT" if k == "typeddict" else "unnamed") if label == "MISSING" else label
+        if got != exp or (o[2]["size"] if k == "typeddict" else o[2].size) != size: return False
+    return True
+
 CONV = {}
 for _k1, _K1 in KINDS.items():
     for _k2, _K2 in KINDS.items():
@@ -356,6 +388,9 @@ def build(tier, seed):
     m.ob("dump_bad_value", "ii: int, ti: int, a: int", "return kinds_dump_bad(ii, ti, a)", pre=["0 <= ii < 4", "0 <= ti < 5"], timeout=tmo,
          family="dumping a malformed object (nested TypedDict without its required key, union field with a value of no member class): the four pure kinds agree, in all three debug modes",
          bounds="4 inner values x 5 tag values (valid and malformed); dataclass / NamedTuple / TypedDict (optional keys) / attrs x DISABLE / FIRST / ALL; symbolic int")
+    m.ob("optional_first_none", "li: int, size: int", "return optional_first(li, size)", pre=["0 <= li < 4", "0 <= size < 3"], timeout=tmo,
+         family="the first processed field is optional with a non-None default: missing -> default, explicit None / '' / value -> that value, for every kind",
+         bounds="pydantic / TypedDict (sorted keys) / plain class / kw_only dataclass / kw_only attrs x 4 label states x 3 sizes x 3 debug modes (pooled values)")
     m.ob("convert_layouts", "a: int, b: str, isnone: bool, n: int", "return layouts_convert(a, b, isnone, n)", pre=["len(b) <= 1"], timeout=tmo,
          family="converters, loaders and dumpers for declaration layouts whose constructor parameter order differs from the field order",
          bounds="6 layouts (keyword-only field declared first in a dataclass / attrs class, inherited field first, reordered __init__, attrs and pydantic parameters renamed with alias=) x 4 pure kinds both ways "
